@@ -28,7 +28,7 @@ def main(chk):
     import checks.c07 as c07
     for roles in ((1,), (0, 1)):
         c07.o3_get(chk, prog, roles, [], only={'failed-healthcheck-not-bad'}, props=('C01',))
-    hobl.handle_obligations(chk, prog, {'C01'}, ['simple', 'session', 'extended', 'named', 'cuts', 'status', 'two-backends', 'malformed', 'copy', 'two-clients', 'timeouts', 'drops', 'checkout-failures'])
+    hobl.handle_obligations(chk, prog, {'C01'}, ['simple', 'session', 'extended', 'named', 'cuts', 'status', 'two-backends', 'malformed', 'copy', 'two-clients', 'timeouts', 'drops', 'checkout-failures', 'cache'])
 
 
 if __name__ == '__main__':
